@@ -255,6 +255,68 @@ Definition clip_result (row : crow) (sc ec : Z) (out : list attr) : Prop :=
     (pr = 0 \/ pr = 1 /\ exists d R0, R = d :: R0 /\ r_wid (fst d) = 2) /\
     out = (if pl =? 0 then [] else [last_attr P]) ++ rbytes M ++ (if pr =? 0 then [] else [first_attr R]).
 
+(* the offsets calc_trim_text returns split the row at character boundaries *)
+Definition trim_decomp (row : crow) (sc ec : Z) (P M R : crow) (pl pr : Z) : Prop :=
+  row = P ++ M ++ R /\
+  calc_trim_text (map fst row) sc ec = (bl P, bl P + bl M, pl, pr) /\
+  wd P = sc + pl /\ wd M = ec - sc - pl - pr /\
+  (pl = 0 \/ pl = 1 /\ exists P0 c, P = P0 ++ [c] /\ r_wid (fst c) = 2) /\
+  (pr = 0 \/ pr = 1 /\ exists d R0, R = d :: R0 /\ r_wid (fst d) = 2).
+
+Lemma calc_trim_decomp row sc ec :
+  row_wf row -> 0 <= sc -> sc < ec -> ec <= wd row ->
+  exists P M R pl pr, trim_decomp row sc ec P M R pl pr.
+Proof.
+  intros Hwf Hsc Hlt Hec.
+  (* left side *)
+  assert (HL : exists P X pl, row = P ++ X /\ wd P = sc + pl /\
+            (if 0 <? sc then
+               let '(sp, c0) := text_pos (map fst row) 0 0 sc in
+               if c0 <? sc then (fst (text_pos (map fst row) 0 0 (sc + 1)), 1) else (sp, 0)
+             else (0, 0)) = (bl P, pl) /\
+            (pl = 0 \/ pl = 1 /\ exists P0 c, P = P0 ++ [c] /\ r_wid (fst c) = 2)).
+  { destruct (0 <? sc) eqn:E0.
+    - rewrite text_pos_walk. pose proof (walk_app row 0 sc) as Ha. pose proof (walk_le row 0 sc ltac:(lia)) as Hle.
+      destruct (walk row 0 sc) as [P1 R1] eqn:Ew. cbn [fst snd] in *.
+      destruct (0 + wd P1 <? sc) eqn:E1.
+      + destruct R1 as [|x R1'].
+        { rewrite app_nil_r in Ha. subst P1. lia. }
+        destruct (walk_next row Hwf 0 sc x R1' ltac:(lia)) as (A & B & C); rewrite ?Ew; cbn [fst snd]; try reflexivity; try lia.
+        rewrite Ew in C. cbn [fst] in C.
+        rewrite text_pos_walk, C. cbn [fst].
+        exists (P1 ++ [x]), R1', 1. split; [now rewrite <- app_assoc|].
+        split; [rewrite wd_app; cbn [wd]; rewrite Ew in B; cbn [fst] in B; lia|].
+        split; [f_equal; lia|]. right. split; [reflexivity|]. now exists P1, x.
+      + exists P1, R1, 0. split; [exact Ha|]. split; [lia|]. split; [f_equal; lia | now left].
+    - exists [], row, 0. split; [reflexivity|]. split; [cbn; lia|]. split; [reflexivity | now left]. }
+  destruct HL as (P & X & pl & Hrow & HwP & HspL & Hpl).
+  assert (HwfP : row_wf P /\ row_wf X) by (apply row_wf_app; now rewrite <- Hrow).
+  destruct HwfP as [HwfP HwfX].
+  assert (Hpl01 : pl = 0 \/ pl = 1) by (destruct Hpl as [?|[? _]]; auto).
+  (* right side *)
+  set (run := ec - sc - pl).
+  pose proof (walk_app X 0 run) as Hax. pose proof (walk_le X 0 run ltac:(unfold run; lia)) as Hlex.
+  destruct (walk X 0 run) as [M R] eqn:Ewx. cbn [fst snd] in *.
+  assert (Htp : text_pos (drop_bytes (map fst row) (bl P)) (bl P) 0 run = (bl P + bl M, 0 + wd M)).
+  { rewrite Hrow, drop_bytes_prefix by assumption. rewrite text_pos_walk, Ewx. reflexivity. }
+  assert (HwfM : row_wf M /\ row_wf R) by (apply row_wf_app; now rewrite <- Hax).
+  destruct HwfM as [HwfM HwfR].
+  assert (Hwtot : wd row = wd P + wd M + wd R) by (rewrite Hrow, Hax, !wd_app; lia).
+  set (pr := if 0 + wd M <? run then 1 else 0).
+  assert (Hpr : pr = 0 /\ wd M = run \/ pr = 1 /\ wd M = run - 1 /\ exists d R0, R = d :: R0 /\ r_wid (fst d) = 2).
+  { unfold pr. destruct (0 + wd M <? run) eqn:E2; [right | left; split; [reflexivity | lia]].
+    destruct R as [|d R0]; [cbn [wd] in Hwtot; unfold run in *; lia|].
+    destruct (walk_next X HwfX 0 run d R0 ltac:(unfold run; lia)) as (A & B & _); rewrite ?Ewx; cbn [fst snd]; try reflexivity; try lia.
+    rewrite Ewx in B. cbn [fst] in B. split; [reflexivity|]. split; [lia|]. now exists d, R0. }
+  assert (Hcalc : calc_trim_text (map fst row) sc ec = (bl P, bl P + bl M, pl, pr)).
+  { unfold calc_trim_text. rewrite HspL. fold run. rewrite Htp. reflexivity. }
+  exists P, M, R, pl, pr. unfold trim_decomp.
+  split; [now rewrite Hrow, Hax|]. split; [exact Hcalc|]. split; [exact HwP|].
+  split; [destruct Hpr as [[-> ?]|[-> [? _]]]; unfold run in *; lia|].
+  split; [destruct Hpl as [->|[-> Hx]]; [now left | right; split; [reflexivity | exact Hx]]|].
+  destruct Hpr as [[-> _]|[-> (_ & Hx)]]; [now left | right; split; [reflexivity | exact Hx]].
+Qed.
+
 Lemma clip_keeps_attr_lemma row attrs sc ec :
   row_wf row -> nonneg attrs -> expand attrs = rbytes row -> 0 <= sc -> sc < ec -> ec <= wd row ->
   clip_result row sc ec (expand (trim_attr (map fst row) attrs sc ec)).
